@@ -90,6 +90,7 @@ class Registry:
         self.specs = {}
         self.force_inline = set()
         self.auto_loop_handler = None
+        self.post_hooks = {}  # qualname -> callable(ex, frame, result) after the inlined body returned
         self.models = {}  # qualname -> callable(ex, args, kwargs): engine-side model of an external function
         self.by_contract_default = True
         self.callee_log = []  # (caller, callee, 'contract'|'body') for evidence
